@@ -170,15 +170,26 @@ theorem Interval.extendAll_spec (tmax tlowest : α) (hlt : tlowest < tmax) (hr :
 theorem Interval.intersectsPoint_iff (b : Interval α) (p : α) : Gen.Interval.intersectsPoint b p = true ↔ Interval.Mem p b := by
   simp only [Gen.Interval.intersectsPoint, ite_false_iff, ite_false'_iff, not_lt, not_le, Interval.Mem, and_assoc, and_true] <;> tauto
 
-/-- what `intersects(box)` computes, for ALL boxes: per-axis overlap of the min/max pairs -/
-theorem Interval.intersectsBox_iff_axes (a b : Interval α) :
+/-- for NON-EMPTY boxes `intersects(box)` is per-axis overlap of the min/max pairs (written so that it also holds if the
+code tests emptiness first) -/
+theorem Interval.intersectsBox_iff_axes_of_nonempty (a b : Interval α) (ha : ¬ Interval.Inverted a) (hb : ¬ Interval.Inverted b) :
     Gen.Interval.intersectsBox a b = true ↔ (b.min ≤ a.max ∧ a.min ≤ b.max) := by
-  simp only [Gen.Interval.intersectsBox, ite_false_iff, ite_false'_iff, not_lt, not_le, and_assoc, and_true] <;> tauto
+  simp only [Interval.Inverted, not_or, not_lt] at ha hb
+  simp only [Gen.Interval.intersectsBox, ite_false_iff, ite_false'_iff, ite_true_iff, not_lt, not_le, and_assoc, and_true] <;> tauto
+
+theorem Interval.not_inverted_of_mem (p : α) (a : Interval α) (h : Interval.Mem p a) : ¬ Interval.Inverted a :=
+  fun hi => (Interval.isEmptySet_iff a).2 hi p h
 
 theorem Interval.intersectsBox_of_common (a b : Interval α) (h : ∃ p, Interval.Mem p a ∧ Interval.Mem p b) :
     Gen.Interval.intersectsBox a b = true := by
-  obtain ⟨p, ⟨q0a, q0b⟩, ⟨r0a, r0b⟩⟩ := h
-  rw [Interval.intersectsBox_iff_axes]; bord
+  obtain ⟨p, hpa, hpb⟩ := h
+  rw [Interval.intersectsBox_iff_axes_of_nonempty a b (Interval.not_inverted_of_mem p a hpa) (Interval.not_inverted_of_mem p b hpb)]
+  obtain ⟨q0a, q0b⟩ := hpa
+  obtain ⟨r0a, r0b⟩ := hpb
+  bord
+
+theorem Interval.intersectsBox_symm (a b : Interval α) : Gen.Interval.intersectsBox a b = Gen.Interval.intersectsBox b a := by
+  unfold Gen.Interval.intersectsBox; split_ifs <;> first | rfl | (exfalso; bord)
 
 theorem Interval.common_of_axes (a b : Interval α) (ha : ¬ Interval.Inverted a) (hb : ¬ Interval.Inverted b)
     (h : (b.min ≤ a.max ∧ a.min ≤ b.max)) :
@@ -380,15 +391,26 @@ theorem Box2.extendAll_spec (tmax tlowest : α) (hlt : tlowest < tmax) (hr : ∀
 theorem Box2.intersectsPoint_iff (b : Box2 α) (p : V2 α) : Gen.Box2.intersectsPoint b p = true ↔ Box2.Mem p b := by
   simp only [Gen.Box2.intersectsPoint, ite_false_iff, ite_false'_iff, not_lt, not_le, Box2.Mem, and_assoc, and_true] <;> tauto
 
-/-- what `intersects(box)` computes, for ALL boxes: per-axis overlap of the min/max pairs -/
-theorem Box2.intersectsBox_iff_axes (a b : Box2 α) :
+/-- for NON-EMPTY boxes `intersects(box)` is per-axis overlap of the min/max pairs (written so that it also holds if the
+code tests emptiness first) -/
+theorem Box2.intersectsBox_iff_axes_of_nonempty (a b : Box2 α) (ha : ¬ Box2.Inverted a) (hb : ¬ Box2.Inverted b) :
     Gen.Box2.intersectsBox a b = true ↔ (b.min.x ≤ a.max.x ∧ a.min.x ≤ b.max.x) ∧ (b.min.y ≤ a.max.y ∧ a.min.y ≤ b.max.y) := by
-  simp only [Gen.Box2.intersectsBox, ite_false_iff, ite_false'_iff, not_lt, not_le, and_assoc, and_true] <;> tauto
+  simp only [Box2.Inverted, not_or, not_lt] at ha hb
+  simp only [Gen.Box2.intersectsBox, ite_false_iff, ite_false'_iff, ite_true_iff, not_lt, not_le, and_assoc, and_true] <;> tauto
+
+theorem Box2.not_inverted_of_mem (p : V2 α) (a : Box2 α) (h : Box2.Mem p a) : ¬ Box2.Inverted a :=
+  fun hi => (Box2.isEmptySet_iff a).2 hi p h
 
 theorem Box2.intersectsBox_of_common (a b : Box2 α) (h : ∃ p, Box2.Mem p a ∧ Box2.Mem p b) :
     Gen.Box2.intersectsBox a b = true := by
-  obtain ⟨p, ⟨⟨q0a, q0b⟩, ⟨q1a, q1b⟩⟩, ⟨⟨r0a, r0b⟩, ⟨r1a, r1b⟩⟩⟩ := h
-  rw [Box2.intersectsBox_iff_axes]; bord
+  obtain ⟨p, hpa, hpb⟩ := h
+  rw [Box2.intersectsBox_iff_axes_of_nonempty a b (Box2.not_inverted_of_mem p a hpa) (Box2.not_inverted_of_mem p b hpb)]
+  obtain ⟨⟨q0a, q0b⟩, ⟨q1a, q1b⟩⟩ := hpa
+  obtain ⟨⟨r0a, r0b⟩, ⟨r1a, r1b⟩⟩ := hpb
+  bord
+
+theorem Box2.intersectsBox_symm (a b : Box2 α) : Gen.Box2.intersectsBox a b = Gen.Box2.intersectsBox b a := by
+  unfold Gen.Box2.intersectsBox; split_ifs <;> first | rfl | (exfalso; bord)
 
 theorem Box2.common_of_axes (a b : Box2 α) (ha : ¬ Box2.Inverted a) (hb : ¬ Box2.Inverted b)
     (h : (b.min.x ≤ a.max.x ∧ a.min.x ≤ b.max.x) ∧ (b.min.y ≤ a.max.y ∧ a.min.y ≤ b.max.y)) :
@@ -608,15 +630,26 @@ theorem Box3.extendAll_spec (tmax tlowest : α) (hlt : tlowest < tmax) (hr : ∀
 theorem Box3.intersectsPoint_iff (b : Box3 α) (p : V3 α) : Gen.Box3.intersectsPoint b p = true ↔ Box3.Mem p b := by
   simp only [Gen.Box3.intersectsPoint, ite_false_iff, ite_false'_iff, not_lt, not_le, Box3.Mem, and_assoc, and_true] <;> tauto
 
-/-- what `intersects(box)` computes, for ALL boxes: per-axis overlap of the min/max pairs -/
-theorem Box3.intersectsBox_iff_axes (a b : Box3 α) :
+/-- for NON-EMPTY boxes `intersects(box)` is per-axis overlap of the min/max pairs (written so that it also holds if the
+code tests emptiness first) -/
+theorem Box3.intersectsBox_iff_axes_of_nonempty (a b : Box3 α) (ha : ¬ Box3.Inverted a) (hb : ¬ Box3.Inverted b) :
     Gen.Box3.intersectsBox a b = true ↔ (b.min.x ≤ a.max.x ∧ a.min.x ≤ b.max.x) ∧ (b.min.y ≤ a.max.y ∧ a.min.y ≤ b.max.y) ∧ (b.min.z ≤ a.max.z ∧ a.min.z ≤ b.max.z) := by
-  simp only [Gen.Box3.intersectsBox, ite_false_iff, ite_false'_iff, not_lt, not_le, and_assoc, and_true] <;> tauto
+  simp only [Box3.Inverted, not_or, not_lt] at ha hb
+  simp only [Gen.Box3.intersectsBox, ite_false_iff, ite_false'_iff, ite_true_iff, not_lt, not_le, and_assoc, and_true] <;> tauto
+
+theorem Box3.not_inverted_of_mem (p : V3 α) (a : Box3 α) (h : Box3.Mem p a) : ¬ Box3.Inverted a :=
+  fun hi => (Box3.isEmptySet_iff a).2 hi p h
 
 theorem Box3.intersectsBox_of_common (a b : Box3 α) (h : ∃ p, Box3.Mem p a ∧ Box3.Mem p b) :
     Gen.Box3.intersectsBox a b = true := by
-  obtain ⟨p, ⟨⟨q0a, q0b⟩, ⟨q1a, q1b⟩, ⟨q2a, q2b⟩⟩, ⟨⟨r0a, r0b⟩, ⟨r1a, r1b⟩, ⟨r2a, r2b⟩⟩⟩ := h
-  rw [Box3.intersectsBox_iff_axes]; bord
+  obtain ⟨p, hpa, hpb⟩ := h
+  rw [Box3.intersectsBox_iff_axes_of_nonempty a b (Box3.not_inverted_of_mem p a hpa) (Box3.not_inverted_of_mem p b hpb)]
+  obtain ⟨⟨q0a, q0b⟩, ⟨q1a, q1b⟩, ⟨q2a, q2b⟩⟩ := hpa
+  obtain ⟨⟨r0a, r0b⟩, ⟨r1a, r1b⟩, ⟨r2a, r2b⟩⟩ := hpb
+  bord
+
+theorem Box3.intersectsBox_symm (a b : Box3 α) : Gen.Box3.intersectsBox a b = Gen.Box3.intersectsBox b a := by
+  unfold Gen.Box3.intersectsBox; split_ifs <;> first | rfl | (exfalso; bord)
 
 theorem Box3.common_of_axes (a b : Box3 α) (ha : ¬ Box3.Inverted a) (hb : ¬ Box3.Inverted b)
     (h : (b.min.x ≤ a.max.x ∧ a.min.x ≤ b.max.x) ∧ (b.min.y ≤ a.max.y ∧ a.min.y ≤ b.max.y) ∧ (b.min.z ≤ a.max.z ∧ a.min.z ≤ b.max.z)) :
@@ -844,15 +877,26 @@ theorem Box4.extendAll_spec (tmax tlowest : α) (hlt : tlowest < tmax) (hr : ∀
 theorem Box4.intersectsPoint_iff (b : Box4 α) (p : V4 α) : Gen.Box4.intersectsPoint b p = true ↔ Box4.Mem p b := by
   simp only [Gen.Box4.intersectsPoint, ite_false_iff, ite_false'_iff, not_lt, not_le, Box4.Mem, and_assoc, and_true] <;> tauto
 
-/-- what `intersects(box)` computes, for ALL boxes: per-axis overlap of the min/max pairs -/
-theorem Box4.intersectsBox_iff_axes (a b : Box4 α) :
+/-- for NON-EMPTY boxes `intersects(box)` is per-axis overlap of the min/max pairs (written so that it also holds if the
+code tests emptiness first) -/
+theorem Box4.intersectsBox_iff_axes_of_nonempty (a b : Box4 α) (ha : ¬ Box4.Inverted a) (hb : ¬ Box4.Inverted b) :
     Gen.Box4.intersectsBox a b = true ↔ (b.min.x ≤ a.max.x ∧ a.min.x ≤ b.max.x) ∧ (b.min.y ≤ a.max.y ∧ a.min.y ≤ b.max.y) ∧ (b.min.z ≤ a.max.z ∧ a.min.z ≤ b.max.z) ∧ (b.min.w ≤ a.max.w ∧ a.min.w ≤ b.max.w) := by
-  simp only [Gen.Box4.intersectsBox, ite_false_iff, ite_false'_iff, not_lt, not_le, and_assoc, and_true] <;> tauto
+  simp only [Box4.Inverted, not_or, not_lt] at ha hb
+  simp only [Gen.Box4.intersectsBox, ite_false_iff, ite_false'_iff, ite_true_iff, not_lt, not_le, and_assoc, and_true] <;> tauto
+
+theorem Box4.not_inverted_of_mem (p : V4 α) (a : Box4 α) (h : Box4.Mem p a) : ¬ Box4.Inverted a :=
+  fun hi => (Box4.isEmptySet_iff a).2 hi p h
 
 theorem Box4.intersectsBox_of_common (a b : Box4 α) (h : ∃ p, Box4.Mem p a ∧ Box4.Mem p b) :
     Gen.Box4.intersectsBox a b = true := by
-  obtain ⟨p, ⟨⟨q0a, q0b⟩, ⟨q1a, q1b⟩, ⟨q2a, q2b⟩, ⟨q3a, q3b⟩⟩, ⟨⟨r0a, r0b⟩, ⟨r1a, r1b⟩, ⟨r2a, r2b⟩, ⟨r3a, r3b⟩⟩⟩ := h
-  rw [Box4.intersectsBox_iff_axes]; bord
+  obtain ⟨p, hpa, hpb⟩ := h
+  rw [Box4.intersectsBox_iff_axes_of_nonempty a b (Box4.not_inverted_of_mem p a hpa) (Box4.not_inverted_of_mem p b hpb)]
+  obtain ⟨⟨q0a, q0b⟩, ⟨q1a, q1b⟩, ⟨q2a, q2b⟩, ⟨q3a, q3b⟩⟩ := hpa
+  obtain ⟨⟨r0a, r0b⟩, ⟨r1a, r1b⟩, ⟨r2a, r2b⟩, ⟨r3a, r3b⟩⟩ := hpb
+  bord
+
+theorem Box4.intersectsBox_symm (a b : Box4 α) : Gen.Box4.intersectsBox a b = Gen.Box4.intersectsBox b a := by
+  unfold Gen.Box4.intersectsBox; split_ifs <;> first | rfl | (exfalso; bord)
 
 theorem Box4.common_of_axes (a b : Box4 α) (ha : ¬ Box4.Inverted a) (hb : ¬ Box4.Inverted b)
     (h : (b.min.x ≤ a.max.x ∧ a.min.x ≤ b.max.x) ∧ (b.min.y ≤ a.max.y ∧ a.min.y ≤ b.max.y) ∧ (b.min.z ≤ a.max.z ∧ a.min.z ≤ b.max.z) ∧ (b.min.w ≤ a.max.w ∧ a.min.w ≤ b.max.w)) :
